@@ -1,3 +1,127 @@
-import Babylon.Core.Proto
-/-! Line-protocol driver for property C15 (stub). -/
-def main : IO Unit := Babylon.Core.runLines (fun (s : Unit) _ => (s, "bad-op")) ()
+import Babylon.Core.Trace
+import Babylon.Topic.Model
+/-! Lock-step replay driver for property C15 (ConcurrentTransientTopic).
+stdin: runs `RUN <seed> bs=<block> cap=<slots reserved> threads=<bound> …` / VRT trace lines / `END`;
+stdout per run: `ok <n>` | `diverge <why>`.
+
+Every atomic-level line must be exactly the next action of that thread in `Babylon.Topic.stepThread`
+(kind, location, memory order, values); harness events drive calls / returns and are checked against
+the client contract and the model's results:
+  ev call publish <n> | ev fill <b> <n> <runs…> | ev ret publish
+  ev call close | ev ret close | ev call clear | ev ret clear | ev subscribe
+  ev call consume <n> | ev ret consume <m> <runs…>
+where `<runs…>` encodes a value list as `first:count` runs of consecutive values. -/
+open Babylon.Core Babylon.Topic
+
+structure RState where
+  c : Cfg
+  n : Nat            -- bound on thread ids (contract checks quantify over `0 .. n-1`)
+  s : State
+
+def hdrNat (hdr : List String) (key : String) (dflt : Nat) : Nat :=
+  (hdr.filterMap (fun h => if h.startsWith (key ++ "=") then (h.drop (key.length + 1)).toNat? else none)).head?.getD dflt
+
+def initR (hdr : List String) : RState :=
+  { c := { bs := hdrNat hdr "bs" Babylon.Gen.Topic.blockSize }, n := hdrNat hdr "threads" 64,
+    s := State.fresh (fun _ => 0) (hdrNat hdr "cap" 0) (fun _ => 0) }
+
+/-- decode `first:count` runs -/
+def decodeRuns (ws : List String) : Option (List Nat) :=
+  ws.foldlM (fun acc w =>
+    match w.splitOn ":" with
+    | [a, k] => do
+      let a ← a.toNat?
+      let k ← k.toNat?
+      pure (acc ++ (List.range k).map (· + a))
+    | [a] => do pure (acc ++ [← a.toNat?])
+    | _ => none) []
+
+def allThreads (r : RState) (p : Pc → Bool) : Bool := (List.range r.n).all (fun u => p (r.s.pc u))
+
+def isIdle (p : Pc) : Bool := p == .idle
+
+def sleepersOn (r : RState) (j : Nat) : Nat :=
+  ((List.range r.n).filter (fun u => match r.s.pc u with | .kSleep _ _ j' => j' == j | _ => false)).length
+
+def stepObs (r : RState) (o : Obs) : Except String RState :=
+  let t := o.tid
+  let s := r.s
+  let pcStr := reprStr (s.pc t)
+  if t ≥ r.n then .error s!"thread id {t} exceeds the bound threads={r.n} of the header" else
+  match Act.ofObs o with
+  | none => .error "unknown trace line"
+  | some (.ev ["call", "publish", n]) =>
+    match n.toNat? with
+    | none => .error "bad count"
+    | some n =>
+      if s.pc t ≠ .idle then .error s!"call while not idle (pc {pcStr})"
+      else if s.closed then .error "client contract: publish after close without clear"
+      else if s.clearing then .error "client contract: call during clear"
+      else .ok { r with s := callPublish s t n }
+  | some (.ev ("fill" :: b :: n :: runs)) =>
+    match decodeRuns runs with
+    | none => .error "bad value runs"
+    | some vals =>
+      match stepThread r.c s t { vals := vals } with
+      | none => .error s!"implementation calls the publish callback on [{b}, +{n}) with {vals.length} values but the model thread is at {pcStr}"
+      | some (s', l) =>
+        if l = .ev ("fill" :: b :: n :: vals.map toString) then .ok { r with s := s' }
+        else .error s!"model expects {reprStr l}, implementation did fill {b} {n}"
+  | some (.ev ["ret", "publish"]) =>
+    if s.pc t = .idle then .ok r else .error s!"implementation returned from publish but the model thread is at {pcStr}"
+  | some (.ev ["call", "close"]) =>
+    if s.pc t ≠ .idle then .error s!"call while not idle (pc {pcStr})"
+    else if s.clearing then .error "client contract: call during clear"
+    else if !allThreads r (fun p => !p.publishing) then .error "client contract: close while a publish is in progress"
+    else .ok { r with s := callClose s t }
+  | some (.ev ["ret", "close"]) =>
+    if s.pc t = .idle then .ok r else .error s!"implementation returned from close but the model thread is at {pcStr}"
+  | some (.ev ["call", "clear"]) =>
+    if s.clearing || !allThreads r isIdle then .error "client contract: clear while another call is in progress"
+    else .ok { r with s := callClear s t }
+  | some (.ev ["ret", "clear"]) =>
+    if s.pc t = .idle && !s.clearing then .ok r else .error s!"implementation returned from clear but the model thread is at {pcStr}"
+  | some (.ev ["subscribe"]) =>
+    if s.pc t ≠ .idle then .error s!"subscribe while not idle (pc {pcStr})"
+    else if s.clearing then .error "client contract: call during clear"
+    else .ok { r with s := subscribe s t }
+  | some (.ev ["call", "consume", n]) =>
+    match n.toNat? with
+    | none => .error "bad count"
+    | some n =>
+      if s.pc t ≠ .idle then .error s!"call while not idle (pc {pcStr})"
+      else if s.clearing then .error "client contract: call during clear"
+      else .ok { r with s := callConsume r.c s t n }
+  | some (.ev ("ret" :: "consume" :: m :: runs)) =>
+    match m.toNat?, decodeRuns runs, s.pc t with
+    | some m, some vals, .kRet b _ m' =>
+      let want := (readRange s b m').map (·.2)
+      if m ≠ m' then .error s!"consume returned {m} items, model says {m'}"
+      else if vals ≠ want then .error s!"consume returned values {vals}, model says {want}"
+      else if !(List.range m').all (fun k => s.hb.seen t (b + k)) then
+        .error s!"model: a returned slot's publication does not happen-before the return (orders too weak)"
+      else .ok { r with s := retConsume s t b m' }
+    | _, _, _ => .error s!"implementation returned from consume but the model thread is at {pcStr}"
+  | some (.ev _) => .ok r            -- other harness events (oracle verdicts, notes, stats)
+  | some (.spawn _) | some (.join _) | some .exit | some (.race _) => .ok r
+  | some a =>
+    let inp : Inp := match a with
+      | .cas _ _ _ _ _ e _ ok obs => { spurious := !ok && e == obs }
+      | .fwake _ _ _ w => { woken := w }
+      | _ => {}
+    match stepThread r.c s t inp with
+    | none => .error s!"implementation performs {reprStr a} but the model thread is at {pcStr}"
+    | some (s', l) =>
+      if l ≠ a then .error s!"model expects {reprStr l}, implementation did {reprStr a}"
+      else
+        match a, s.pc t with
+        | .fwake _ _ _ w, .wWake _ _ _ _ j =>
+          if w = sleepersOn r j then .ok { r with s := s' }
+          else .error s!"futex wake on slot {j} woke {w} threads, the model has {sleepersOn r j} sleepers"
+        | _, _ => .ok { r with s := s' }
+
+def finalR (r : RState) : Except String Unit :=
+  if allThreads r isIdle then .ok () else .error "a model thread is still inside a call at the end of the trace"
+
+def main : IO Unit := do
+  replayLoop (← IO.getStdin) initR stepObs finalR
